@@ -17,6 +17,7 @@ package datacodec
 import (
 	"bytes"
 	"fmt"
+	"math"
 	"reflect"
 
 	"github.com/datastax/go-cassandra-native-protocol/datatype"
@@ -160,6 +161,12 @@ func writeMap(ext keyValueExtractor, size int, keyCodec Codec, valueCodec Codec,
 				}
 				if encodedValue == nil {
 					return nil, errNilMapValue()
+				}
+				if len(encodedKey) > math.MaxUint16 {
+					return nil, collectionElementTooLarge(len(encodedKey), math.MaxUint16)
+				}
+				if len(encodedValue) > math.MaxUint16 {
+					return nil, collectionElementTooLarge(len(encodedValue), math.MaxUint16)
 				}
 				_ = primitive.WriteShortBytes(encodedKey, buf)
 				_ = primitive.WriteShortBytes(encodedValue, buf)
